@@ -196,6 +196,9 @@ def has_subterm(v, sub):
     if k == 'app':
         return any(has_subterm(x, sub) for x in v[2] if isinstance(x, tuple))
     if k == 'proj':
+        # a projection path contains every object along the way: x.a.b contains x.a
+        if sub[0] == 'proj' and sub[1] == v[1] and v[2][:len(sub[2])] == sub[2]:
+            return True
         return has_subterm(v[1], sub)
     return False
 
@@ -388,6 +391,31 @@ class Interp:
                     env['__vec_last'] = {k: v for k, v in vl.items() if k not in mut_args}
             if name in ('unwrap', 'expect') and args and is_adt(args[0], 'option::Option', 'Some') and 'option::Option' in d:
                 return args[0][4][0], args
+            if name in ('unwrap', 'expect') and args and args[0][0] in ('app', 'proj', 'sym') and 'option::Option' in d \
+                    and (env.get('__decided') or {}).get(('app', 'discriminant', (args[0],))) == ('is', 1):
+                # the path already established that this opaque Option is Some
+                return P_SOME(args[0]), args
+            # peek-then-pop: `v.last()` observed, then `v.pop()` with no mutation of v in between removes exactly the observed element
+            pk = env.get('__vec_peek') or {}
+            if name == 'last' and len(args) == 1 and ('slice' in d or 'vec::Vec' in d) and args[0][0] in ('sym', 'proj') and args[0] not in vl:
+                self.serial += 1
+                term = ('app', '%s#%d' % (r or d, self.serial), tuple(args))  # one term per observation: the vector may change between two
+                np_ = dict(pk)
+                np_[args[0]] = term
+                env['__vec_peek'] = np_
+                return term, args
+            if name == 'pop' and len(args) == 1 and 'vec::Vec' in d and args[0] in pk:
+                term = pk[args[0]]
+                env['__vec_peek'] = {k: v for k, v in pk.items() if k != args[0]}
+                return term, args
+            if pk and name not in ('len', 'is_empty', 'deref', 'iter', 'get', 'first', 'last', 'as_slice', 'clone', 'unwrap', 'expect', 'branch', 'from_residual'):
+                mut_args = set()
+                for a, av in zip(t['args'], args):
+                    pl = op_place(a)
+                    if pl is not None and not pl['p'] and fn.locals[pl['l']]['ty'].startswith('&mut'):
+                        mut_args.add(av)
+                if any(k in mut_args for k in pk):
+                    env['__vec_peek'] = {k: v for k, v in pk.items() if k not in mut_args}
             # std slice / Vec facts on a concrete element list
             if args and args[0][0] == 'tuple' and ('slice' in d or 'vec::Vec' in d or path_endswith(tr, 'convert::Into') or path_endswith(tr, 'convert::From') or path_endswith(tr, 'ops::Index')):
                 el = args[0][1]
@@ -414,6 +442,15 @@ class Interp:
                 return ('iter', self.serial, args[0][1]), args
             if name == 'into_iter' and len(args) == 1 and args[0][0] == 'iter':
                 return args[0], args
+            if name in ('find', 'any', 'all', 'position') and len(args) == 2 and args[0][0] == 'iter' and args[1][0] in ('closure', 'fn') \
+                    and path_endswith(tr, 'iter::Iterator') and depth < self.max_depth:
+                cur = dict(env.get('__iter') or {})
+                start = cur.get(args[0][1], 0)
+                res = self._iter_search(name, args[0][2], start, args[1], depth, t['span'])
+                if res is not None:
+                    cur[args[0][1]] = len(args[0][2])
+                    env['__iter'] = cur
+                    return ('paths', res), args
             if name == 'next' and len(args) == 1 and args[0][0] == 'iter':
                 cur = dict(env.get('__iter') or {})
                 i = cur.get(args[0][1], 0)
@@ -500,7 +537,7 @@ class Interp:
         # value-preserving std conversions are transparent (refs are transparent in this domain)
         if len(args) == 1 and not c.get('local'):
             if (path_endswith(tr, 'clone::Clone') and name == 'clone' and not (r and self.prog.by_path.get(r))) or \
-               (path_endswith(tr, 'string::ToString') and name == 'to_string' and args[0][0] in ('sym', 'c')) or \
+               (path_endswith(tr, 'string::ToString') and name == 'to_string' and args[0][0] in ('sym', 'c') and ((c.get('args') or ['?'])[0].lstrip('&') in ('str', 'std::string::String', '?') or args[0][0] == 'c' and isinstance(args[0][1], str))) or \
                (path_endswith(tr, 'borrow::ToOwned') and name == 'to_owned') or \
                (path_endswith(tr, 'ops::Deref') and name == 'deref') or (path_endswith(tr, 'ops::DerefMut') and name == 'deref_mut') or \
                (path_endswith(tr, 'convert::AsRef') and name == 'as_ref') or (path_endswith(tr, 'borrow::Borrow') and name == 'borrow'):
@@ -534,6 +571,37 @@ class Interp:
                 break
         return ('app', nm, tuple(args)), args
 
+    def _iter_search(self, kind, elems, i, pred, depth, span):
+        """Iterator::find / any / all / position over a concrete element list: the predicate is applied to the elements in order;
+        an undecided predicate value forks (recorded as a branch on that value). Returns [(value, effects)] or None."""
+        if i >= len(elems):
+            end = {'find': NONE, 'position': NONE, 'any': C(False), 'all': C(True)}[kind]
+            return [(end, ())]
+        r = self.apply_callable(pred, [elems[i]], depth)
+        if r is None:
+            return None
+        outcomes = r[1] if (isinstance(r, tuple) and r and r[0] == 'paths') else [(r, ())]
+        out = []
+        for val, eff in outcomes:
+            if val == ('diverge',):
+                out.append((val, eff))
+                continue
+            if val[0] == 'c' and isinstance(val[1], (bool, int)):
+                cases = [(bool(val[1]), eff)]
+            else:
+                cases = [(True, eff + (('<branch>', None, (val, C(1)), span),)), (False, eff + (('<branch>', None, (val, C(0)), span),))]
+            for truth, e2 in cases:
+                stop = truth if kind in ('find', 'any', 'position') else (not truth)
+                if stop:
+                    hit = {'find': SOME(elems[i]), 'position': SOME(C(i)), 'any': C(True), 'all': C(False)}[kind]
+                    out.append((hit, e2))
+                else:
+                    rest = self._iter_search(kind, elems, i + 1, pred, depth, span)
+                    if rest is None:
+                        return None
+                    out += [(v, e2 + e3) for v, e3 in rest]
+        return out
+
     def apply_callable(self, f, argv, depth):
         """apply an abstract callable (closure value or fn item) to abstract arguments; returns a value, ('paths', ..) or None"""
         if f[0] == 'closure':
@@ -560,6 +628,8 @@ class Interp:
                 return OK(argv[0])
             if f[1] in ('std::result::Result::Err',) and len(argv) == 1:
                 return ERR(argv[0])
+            # a function item the crate does not define (std function, method of a generic parameter): the same term a direct call gives
+            return ('app', f[1], tuple(argv))
         return None
 
     def _combinator(self, fn, name, args, depth):
